@@ -170,8 +170,10 @@ macro_rules! c09_gs3 {
     };
 }
 c09_gs3!(c09_gs3_challenge_1_digit, 1, false);
-c09_gs3!(c09_gs3_challenge_3_digits_neg, 3, true);
-c09_gs3!(c09_gs3_challenge_10_digits, 10, false);
+c09_gs3!(c09_gs3_challenge_1_digit_neg, 1, true);
+c09_gs3!(c09_gs3_challenge_2_digits_neg, 2, true);
+c09_gs3!(c09_t_gs3_challenge_3_digits_neg, 3, true);
+c09_gs3!(c09_t_gs3_challenge_10_digits, 10, false);
 c09_gs3!(c09_t_gs3_challenge_2_digits, 2, false);
 c09_gs3!(c09_t_gs3_challenge_5_digits, 5, false);
 c09_gs3!(c09_t_gs3_challenge_9_digits_neg, 9, true);
